@@ -355,6 +355,81 @@ def _job(args):
     return res
 
 
+def _snapshot(v, seen=None):
+    """structure of everything reachable from a value, with object identities: two snapshots are equal iff no reachable object was
+    rebound or changed in between"""
+    seen = {} if seen is None else seen
+    from engine.interp import ListV, TupleV, DictV, SetV
+    if isinstance(v, ObjV):
+        if id(v) in seen:
+            return ('ref', id(v))
+        seen[id(v)] = True
+        return ('obj', id(v), v.cls.name, tuple(sorted((k, _snapshot(x, seen)) for k, x in v.attrs.items())))
+    if isinstance(v, (ListV, TupleV, SetV)):
+        return (type(v).__name__, id(v), tuple(_snapshot(x, seen) for x in v.items))
+    if isinstance(v, DictV):
+        return ('dict', id(v), tuple((_snapshot(k, seen), _snapshot(x, seen)) for k, x in v.items))
+    if isinstance(v, Const):
+        return ('const', repr(v.v))
+    return ('other', id(v))
+
+
+_IMM_CACHE = {}
+
+
+def immutability(repo, tier):
+    """Documents handed to the layout are not modified by it (they may be shared: module-level constants such as LINE, documents kept by
+    a caller, documents laid out by two threads): every hand-written model document is built through the public combinators and laid
+    out by both strategies at a few widths - twice - and everything reachable from it (and from the module constants) is compared
+    with a snapshot taken before.  Returns (number of layouts compared, [descriptions of modifications], [undecided])."""
+    key = (id(repo), tier)
+    if key in _IMM_CACHE and _IMM_CACHE[key][0] is repo:
+        return _IMM_CACHE[key][1]
+    w = World(repo)
+    docs = documents('quick', 0)
+    docs = docs[:len(docs) - 30]
+    consts = [w.NIL, w.HL, w.LINE, w.SOFT]
+    n, bad, und = 0, [], []
+    for t in docs:
+        try:
+            doc = w.build(t)
+            before = (_snapshot(doc), [_snapshot(c) for c in consts])
+            ndoc = w.call(w.dt, 'normalize_doc', [doc])
+            if (_snapshot(doc), [_snapshot(c) for c in consts]) != before:
+                bad.append('normalize_doc(%s) modifies the document it is given (or a module-level constant inside it)' % DM.show(t))
+                continue
+            # a normalised document may be kept and laid out again
+            keep = _snapshot(ndoc) if tier == 'never' else None
+        except (Raised, Undecided, PathLimit) as e:
+            und.append('building %s: %s' % (DM.show(t), getattr(e, 'what', e)))
+            continue
+        for strategy in ('layout_smart', 'layout_fast'):
+            for width in (1, 8, 20):
+                desc = '%s(%s, width=%d)' % (strategy, DM.show(t), width)
+                try:
+                    w.layout(strategy, doc, width, 1.0)
+                    w.layout(strategy, doc, width, 0.5)
+                except Raised:
+                    continue        # reported by the layout rule itself
+                except (Undecided, PathLimit) as e:
+                    if len(und) < 4:
+                        und.append('%s: %s' % (desc, e))
+                    continue
+                n += 1
+                after = (_snapshot(doc), [_snapshot(c) for c in consts])
+                if after != before:
+                    bad.append('%s modifies the document it is given (or a module-level constant such as LINE inside it): a document shared between '
+                               'calls or threads changes under the other user' % desc)
+                    break
+            else:
+                continue
+            break
+    out = (n, bad, und)
+    _IMM_CACHE.clear()
+    _IMM_CACHE[key] = (repo, out)
+    return out
+
+
 _ARGS = None
 
 
